@@ -909,3 +909,44 @@ Section Main.
     apply (ranking_cost_only pop pop' fr fr' Ht Hset HR HR' i i' x x Hi Hi' eq_refl).
   Qed.
 End Main.
+
+(* ------------------------------------------------------------------------------------------ *)
+(* (7) statements in the form used by Props/C02.v: any lawful comparator, then ParetoDominance  *)
+(* ------------------------------------------------------------------------------------------ *)
+Section Statements.
+  Context {C : Type} (cmp : C -> C -> nat).
+  Hypothesis cmp_antisym : forall p q, cmp q p = swap (cmp p q).
+
+  Lemma fnds_is_ranking pop fr : trans_on cmp (map cost pop) -> NoDup (map iid pop) ->
+    fnds cmp pop = Some fr -> is_ranking cmp pop fr.
+  Proof.
+    intros Ht Hnd Hf. destruct (fnds_rank cmp cmp_antisym pop Ht Hnd) as [fr0 [E0 HR]].
+    rewrite Hf in E0. inversion E0; subst. assumption.
+  Qed.
+
+  Lemma fnds_total pop : trans_on cmp (map cost pop) -> NoDup (map iid pop) ->
+    exists fr, fnds cmp pop = Some fr /\ length fr = length pop /\
+      forall i, i < length pop -> exists k, nth i fr None = Some k /\ 1 <= k.
+  Proof.
+    intros Ht Hnd. destruct (fnds_rank cmp cmp_antisym pop Ht Hnd) as [fr [E [Hl Hr]]].
+    exists fr. splits; [assumption|assumption|]. intros i Hi. rewrite (Hr i Hi). eexists. split; [reflexivity|lia].
+  Qed.
+
+  Lemma dominators_spec pop i j : In j (dominators cmp pop i) <->
+    exists c a, nth_error pop j = Some c /\ nth_error pop i = Some a /\ cmp (cost c) (cost a) = 1.
+  Proof. rewrite in_dominators. apply Db_inv. Qed.
+End Statements.
+
+Section ParetoInst.
+  Context {T : Type} (ltb : T -> T -> bool) (H : Ord.SWO ltb).
+
+  Definition uniform_len (pop : list (ind (list T * Z))) : Prop :=
+    forall x y, In x pop -> In y pop -> length (fst (cost x)) = length (fst (cost y)).
+
+  Lemma pareto_trans_on pop : uniform_len pop -> trans_on (Dominance.pareto_compare ltb) (map cost pop).
+  Proof.
+    intros Hu p q r Hp Hq Hr. apply in_map_iff in Hp, Hq, Hr.
+    destruct Hp as [x [<- Hx]], Hq as [y [<- Hy]], Hr as [z [<- Hz]].
+    apply (pareto_trans ltb H); unfold same_len; apply Hu; assumption.
+  Qed.
+End ParetoInst.
